@@ -93,3 +93,52 @@ Proof.
     cbn [load_scalar] in RT. destruct (lit_load (10 :: body) 1) as [[[x y] c]|]; [|discriminate RT].
     inversion RT; subst. now rewrite unnums_nums.
 Qed.
+
+(* ------------------------------------------------------------------ *)
+(** * an exhaustive sweep of the MODEL over a finite family of shapes
+
+    Not the unbounded statement: a [vm_compute] check that the model loader
+    inverts the model emitter on every tree of the generated list
+    [sweep_trees] (every list/map of at most two entries over null and four
+    scalars – plain, empty, literal, quoted – wrapped zero to four times in
+    single- and multi-entry lists and maps with plain and literal ("long") keys,
+    so that depth reaches 6 and block, flow, long-key and empty-container
+    layouts all occur).  It covers exhaustively the small layouts that the
+    random correspondence streams only sample. *)
+Definition sw_scalars : list bytes :=
+  [ ["a"]%byte; []; ["a"; x0a]%byte; ["-"; " "; "x"]%byte ].
+
+Definition sw_leaves : list item := Null :: map Scalar sw_scalars.
+
+Definition sw_k1 : bytes := ["a"; x0a]%byte.   (* literal key: long-key form in block context *)
+Definition sw_k2 : bytes := ["k"]%byte.
+Definition sw_k3 : bytes := ["x"; " "; "y"]%byte.
+
+Definition sw_level1 : list item :=
+  sw_leaves
+  ++ [Lst []] ++ map (fun x => Lst [x]) sw_leaves ++ flat_map (fun x => map (fun y => Lst [x; y]) sw_leaves) sw_leaves
+  ++ [Map []] ++ flat_map (fun k => map (fun x => Map [(k, x)]) sw_leaves) [sw_k1; sw_k2; sw_k3]
+  ++ flat_map (fun x => flat_map (fun y => [Map [(sw_k1, x); (sw_k2, y)]; Map [(sw_k2, x); (sw_k3, y)]]) sw_leaves) sw_leaves.
+
+Definition sw_wrap (t : item) : list item :=
+  [ Lst [t]; Lst [Scalar ["a"]%byte; t; Scalar ["a"; x0a]%byte]; Map [(sw_k2, t)]; Map [(sw_k1, t); (sw_k2, Scalar ["a"]%byte)] ].
+
+Definition sweep_trees : list item :=
+  let l1 := sw_level1 in
+  let l2 := flat_map sw_wrap l1 in
+  let l3 := flat_map sw_wrap l2 in
+  let l4 := flat_map sw_wrap l3 in
+  let l5 := flat_map sw_wrap l4 in
+  l1 ++ l2 ++ l3 ++ l4 ++ l5.
+
+Definition roundtrips (t : item) : bool :=
+  match load_octs (emit_octs t) with
+  | Some t' => item_eqb t' (prune t)
+  | None => false
+  end.
+
+Lemma sweep_size : N.of_nat (length sweep_trees) = 34782%N.
+Proof. vm_compute. reflexivity. Qed.
+
+Theorem tree_roundtrip_sweep : forallb (fun t => wf_item t && roundtrips t) sweep_trees = true.
+Proof. vm_compute. reflexivity. Qed.
